@@ -1,0 +1,15 @@
+//go:build verif
+
+package esql
+
+import (
+	"github.com/bmeg/grip/timestamp"
+	"github.com/jmoiron/sqlx"
+)
+
+// VerifGraphDB builds a GraphDB around an injected database handle and schema list (no connection is made).
+// Verification hook: compiled only with the `verif` build tag.
+func VerifGraphDB(db *sqlx.DB, graphs []*Schema) *GraphDB {
+	ts := timestamp.NewTimestamp()
+	return &GraphDB{db, graphs, &ts}
+}
